@@ -290,7 +290,7 @@ def carray(text, name):
     need("{")
     fields = []
     while pos < len(ls) and not ls[pos].startswith("}"):
-        m = re.match(r"^  (const char \*data|unsigned start|unsigned long start|unsigned len|unsigned long len|"
+        m = re.match(r"^  (const (?:unsigned )?char \*data|unsigned start|unsigned long start|unsigned len|unsigned long len|"
                      r"unsigned end|unsigned long end);$", ls[pos])
         if not m:
             raise HexError(pos + 1, "unexpected struct member", ls[pos])
